@@ -5,6 +5,7 @@ package main
 // runtime fault, is observed as the death of the child and attributed to the program in flight.
 
 import (
+	"sort"
 	"bufio"
 	"encoding/json"
 	"fmt"
@@ -54,10 +55,46 @@ func c01Env() *env.Env {
 	e.Define("cat", func(xs ...string) string { return strings.Join(xs, "") })
 	e.Define("boom", func() { panic("host function panics") })
 	e.Define("boomv", func(x interface{}) interface{} { panic(fmt.Errorf("host error %v", x)) })
+	// Go functions of many parameter kinds, for the boundary sweep (no conversion may panic)
+	for name, fn := range c01BoundaryFuncs {
+		e.Define(name, fn)
+	}
 	m, _ := e.NewModule("mod")
 	m.Define("v", int64(1))
 	e.DefineType("int64", int64(0))
 	return e
+}
+
+var c01BoundaryFuncs = map[string]interface{}{
+	"b_arr2":   func(a [2]int64) int64 { return a[0] },
+	"b_arr0":   func(a [0]string) int64 { return 0 },
+	"b_arrarr": func(a [2][1]int64) int64 { return a[1][0] },
+	"b_slarr":  func(a [][2]int64) int64 { return int64(len(a)) },
+	"b_map":    func(a map[string]int64) int64 { return int64(len(a)) },
+	"b_mapsl":  func(a map[string][]int64) int64 { return int64(len(a)) },
+	"b_maparr": func(a map[int64][1]string) int64 { return int64(len(a)) },
+	"b_ptr":    func(a *int64) int64 { return 1 },
+	"b_pptr":   func(a **string) int64 { return 1 },
+	"b_fn":     func(f func(int64) int64) int64 { return f(1) },
+	"b_fn0":    func(f func()) int64 { f(); return 1 },
+	"b_fnv":    func(f func(...int64) int64) int64 { return f(1, 2) },
+	"b_fn2r":   func(f func(string) (int64, error)) int64 { a, _ := f("x"); return a },
+	"b_struct": func(a struct{ A int64 }) int64 { return a.A },
+	"b_chan":   func(a chan int64) int64 { return int64(cap(a)) },
+	"b_err":    func(a error) int64 { return 1 },
+	"b_u8":     func(a uint8) int64 { return int64(a) },
+	"b_f32":    func(a float32) int64 { return 1 },
+	"b_rune":   func(a rune) int64 { return int64(a) },
+	"b_bytes":  func(a []byte) int64 { return int64(len(a)) },
+	"b_var":    func(a int64, r ...[2]int64) int64 { return int64(len(r)) },
+	"b_iface":  func(a interface{}, b ...interface{}) int64 { return int64(len(b)) },
+}
+
+var c01BoundaryValues = []string{
+	"nil", "true", "0", "-1", "300", "9223372036854775807", "1.5", "1e300", "-1e19", "\"\"", "\"a\"", "\"ab\"", "[]", "[1]", "[1, 2]", "[1, 2, 3]", "[1, \"x\"]", "[nil, nil]",
+	"[[1], [2]]", "[[1, 2], [3]]", "[[1, 2, 3]]", "{}", "{\"a\": 1}", "{\"a\": [1, 2]}", "{1: [\"x\", \"y\"]}", "{\"a\": nil}", "func() { }", "func(a) { return a }",
+	"func(a...) { return a }", "func(a, b) { return a, b }", "func(a) { throw \"in callback\" }", "func(a) { return \"s\" }", "func(a) { return nil }", "n", "fl", "str", "list", "dict", "ints", "strs",
+	"ch", "nilptrs", "nilptrs[0]", "pt", "add", "boom", "mod", "new(int64)", "new(string)", "make(chan int64, 1)", "make([]int64, 2)", "make(map[string]int64)", "make(struct { A int64 })", "&n",
 }
 
 // c01Child runs the programs of a file one by one, reporting progress on stdout
@@ -238,6 +275,23 @@ func c01Main(seed uint64, n int, outDir string, self string) error {
 				v = strings.ReplaceAll(v, "\x00"+nm+"\x01", hop(nm))
 			}
 			progs = append(progs, c01Prog{v, fmt.Sprintf("degenerate-provenance-%d", hi)})
+		}
+	}
+	// the Go boundary: every boundary function with every value of the pool, as the only argument, spread, and as a second argument
+	{
+		var names []string
+		for name := range c01BoundaryFuncs {
+			names = append(names, name)
+		}
+		sort.Strings(names)
+		for _, f := range names {
+			for _, v := range c01BoundaryValues {
+				progs = append(progs, c01Prog{f + "(" + v + ")", "boundary"})
+				progs = append(progs, c01Prog{"x = " + v + "\n" + f + "(x...)", "boundary-spread"})
+				if f == "b_var" || f == "b_iface" {
+					progs = append(progs, c01Prog{f + "(1, " + v + ")", "boundary-tail"}, c01Prog{f + "(1, " + v + ", " + v + ")", "boundary-tail"}, c01Prog{"x = " + v + "\n" + f + "(1, x...)", "boundary-tail-spread"})
+				}
+			}
 		}
 	}
 	envNames := []string{"n", "fl", "str", "t", "nothing", "list", "dict", "ints", "strs", "ch", "nilptrs", "pt", "add", "cat", "boom", "boomv", "mod", "probe", "hvar"}
